@@ -43,6 +43,20 @@ Record ext := mk_ext {
   x_critical : Z;         (* -1 absent, 0 FALSE, 1 TRUE *)
   x_body : ext_body }.
 
+(* signature algorithm identifiers as x509_signature_algor_from_der classifies them: the OID of
+   sm2sign-with-sm3 (with or without NULL parameters), another OID of the library's table
+   (ecdsa-with-*, *WithRSAEncryption, rsasign-with-sm3), or an OID the table does not know
+   (then the certificate does not parse) *)
+Inductive sigalg := AlgSM2 | AlgOther (id : N) | AlgUnknown.
+Definition alg_known (a : sigalg) : bool := match a with AlgUnknown => false | _ => true end.
+Definition alg_is_sm2 (a : sigalg) : bool := match a with AlgSM2 => true | _ => false end.
+Definition alg_eqb (a b : sigalg) : bool :=
+  match a, b with
+  | AlgSM2, AlgSM2 => true
+  | AlgOther x, AlgOther y => (x =? y)%N
+  | _, _ => false
+  end.
+
 Definition name := N.     (* 0 = the empty Name (x509_name_check answers 0) *)
 Definition key := N.
 
@@ -50,14 +64,19 @@ Record cert := mk_cert {
   c_parse_ok : bool;          (* x509_cert_get_details succeeds as far as not modelled below *)
   c_version : Z;              (* -1 absent, 0 v1, 1 v2, 2 v3 *)
   c_serial_len : N;
-  c_alg_match : bool;         (* tbs signature algorithm = outer signature algorithm *)
+  c_inner_alg : sigalg;       (* TBSCertificate.signature *)
+  c_outer_alg : sigalg;       (* Certificate.signatureAlgorithm *)
   c_issuer : name;
   c_subject : name;
   c_not_before : Z;
   c_not_after : Z;
   c_key : key;                (* subject public key *)
-  c_sig_ok : key -> bool;     (* signature over the TBS bytes verifies under this key (SM2 default id) *)
+  c_sig_ok : key -> bool;     (* the signature bits are an SM2/SM3 signature over the TBS bytes that verifies under
+                                 this key (default id); says nothing about the algorithm identifiers *)
   c_exts : list ext }.
+
+(* tbs_sig_algor == sig_algor in x509_cert_check (both as table entries) *)
+Definition c_alg_match (c : cert) : bool := alg_eqb (c_inner_alg c) (c_outer_alg c).
 
 Definition X509_VALIDITY_MAX_SECONDS : Z := 3653 * 86400.
 
@@ -155,7 +174,8 @@ Definition exts_check (f : fixes) (xs : list ext) (t : cert_type) : option Z :=
   end.
 
 (* x509_cert_get_details: the validity parser refuses notBefore >= notAfter *)
-Definition get_details_ok (c : cert) : bool := c_parse_ok c && (c_not_before c <? c_not_after c).
+Definition get_details_ok (c : cert) : bool :=
+  c_parse_ok c && (c_not_before c <? c_not_after c) && alg_known (c_inner_alg c) && alg_known (c_outer_alg c).
 
 Definition name_check (n : name) : bool := negb (n =? 0)%N.
 
@@ -172,10 +192,13 @@ Definition cert_check (f : fixes) (now : Z) (c : cert) (t : cert_type) : option 
   | Some pl => if c_alg_match c then Some pl else None
   end.
 
-(* x509_cert_verify_by_ca_cert == 1 *)
+(* x509_cert_verify_by_ca_cert == 1: names, then x509_signed_verify = "the outer algorithm is
+   sm2sign-with-sm3 AND the SM2 signature verifies" - the signature bits are never looked at
+   for any other algorithm identifier *)
 Definition verify_by_ca (c ca : cert) : bool :=
   get_details_ok c && get_details_ok ca
   && (c_issuer c =? c_subject ca)%N
+  && alg_is_sm2 (c_outer_alg c)
   && c_sig_ok c (c_key ca).
 
 (* x509_certs_get_cert_by_subject: inl false = -1, inl true = 0 (not found), inr c = 1 *)
@@ -301,10 +324,15 @@ Definition valid_now (now : Z) (c : cert) : Prop := c_not_before c <= now <= c_n
 (* "no unrecognised critical extension occurs" *)
 Definition no_unknown_critical (c : cert) : Prop :=
   forall x, In x (c_exts c) -> x_body x = XUnknown -> x_critical x <> 1.
-Definition cert_ok (now : Z) (c : cert) : Prop := parses c /\ valid_now now c /\ no_unknown_critical c.
+(* inner and outer signature algorithm identifiers agree *)
+Definition algs_agree (c : cert) : Prop := c_inner_alg c = c_outer_alg c /\ c_outer_alg c <> AlgUnknown.
+Definition cert_ok (now : Z) (c : cert) : Prop := parses c /\ valid_now now c /\ no_unknown_critical c /\ algs_agree c.
 
 (* "each certificate names the next one's subject as issuer and verifies under its public key" *)
-Definition issued_by (c i : cert) : Prop := c_issuer c = c_subject i /\ c_sig_ok c (c_key i) = true.
+(* "verifies under its public key" = the certificate declares sm2sign-with-sm3 AND its signature bits are
+   a valid SM2 signature under that key; no other declared algorithm can count as verified *)
+Definition issued_by (c i : cert) : Prop :=
+  c_issuer c = c_subject i /\ c_outer_alg c = AlgSM2 /\ c_sig_ok c (c_key i) = true.
 Fixpoint linked (l : list cert) : Prop :=
   match l with
   | a :: (b :: _) as t => issued_by a b /\ linked t
